@@ -1,6 +1,7 @@
 package clip
 
 import (
+	"encoding/json"
 	"context"
 	"fmt"
 	"os"
@@ -32,6 +33,10 @@ type NewStoreCase struct {
 	CtxMs     int            `json:"ctx_ms"`
 	Client    string         `json:"client"` // svc | file
 	FileHas   []string       `json:"file_has"`
+	// FileBlank: names the secrets file lists with a version number but WITHOUT a value (an empty
+	// "Value", an empty "TextValue", or neither key): such an entry may count as absent or as an empty
+	// value - but never as something that makes construction succeed and the first read blow up
+	FileBlank []string `json:"file_blank,omitempty"`
 	PlainCtx  bool           `json:"plain_ctx"` // the client reports abandoned requests with an error that does not wrap the context's error
 	Misconfig string         `json:"misconfig"` // "" | nilclient | nonames | emptyname (last) | emptyfirst | emptymid
 	ExpiryS   int            `json:"expiry_s"`  // StoreConfig.ExpiryAge in seconds (0 = none)
@@ -93,6 +98,9 @@ func genNewStoreCase(rt *rapid.T) NewStoreCase {
 	c.Ctx = rapid.SampledFrom([]string{"bg", "bg", "deadline", "deadline", "cancel", "cancelled"}).Draw(rt, "ctx")
 	c.CtxMs = rapid.SampledFrom([]int{3, 250, 4000, 10007, 60011}).Draw(rt, "ctxms")
 	c.Client = rapid.SampledFrom([]string{"svc", "svc", "svc", "file"}).Draw(rt, "client")
+	if rapid.IntRange(0, 2).Draw(rt, "withblank") == 0 {
+		c.FileBlank = rapid.SliceOfNDistinct(rapid.SampledFrom(append(append([]string{}, c10Pool...), "s1", "s2")), 1, 3, func(s string) string { return s }).Draw(rt, "fileblank")
+	}
 	c.FileHas = rapid.SliceOfNDistinct(rapid.SampledFrom(append(append([]string{}, c10Pool...), "s1", "s2", "b2", "0first")), 0, 8, func(s string) string { return s }).Draw(rt, "filehas")
 	c.Misconfig = rapid.SampledFrom([]string{"", "", "", "", "", "", "nilclient", "nonames", "emptyname", "emptyfirst", "emptymid"}).Draw(rt, "misconfig")
 	c.ExpiryS = rapid.SampledFrom([]int{0, 0, 10, 3600}).Draw(rt, "expiry")
@@ -250,7 +258,7 @@ func runC10Bubble(dir string, c NewStoreCase, info *h.Info, again *func() *h.Vio
 		declared["s1"], declared["s2"] = true, true
 		info.Class("struct-declared")
 	}
-	fileHas := map[string]bool{}
+	fileHas, fileBlank := map[string]bool{}, map[string]bool{}
 	switch c.Client {
 	case "svc":
 		cfg.Client = svc
@@ -266,7 +274,22 @@ func runC10Bubble(dir string, c NewStoreCase, info *h.Info, again *func() *h.Vio
 			fileHas[n] = true
 		}
 		p := filepath.Join(dir, "secrets.json")
-		os.WriteFile(p, model.EncodeCache(doc), 0o600)
+		raw := model.EncodeCache(doc)
+		if len(c.FileBlank) > 0 {
+			var m map[string]json.RawMessage
+			if err := json.Unmarshal(raw, &m); err != nil {
+				return h.V("harness", "secrets file: %v", err)
+			}
+			for i, n := range c.FileBlank {
+				if !fileHas[n] {
+					m[n] = json.RawMessage([]string{`{"secret":{"Version":4,"Value":""}}`, `{"secret":{"Version":2,"TextValue":""}}`, `{"secret":{"Version":7}}`}[(i+len(c.FileHas))%3])
+					fileBlank[n] = true
+				}
+			}
+			raw, _ = json.Marshal(m)
+			info.Class("file-client-with-value-less-entries")
+		}
+		os.WriteFile(p, raw, 0o600)
 		fc, err := setec.NewFileClient(p)
 		if err != nil {
 			return h.V("harness", "NewFileClient: %v", err)
@@ -405,6 +428,41 @@ func runC10Bubble(dir string, c NewStoreCase, info *h.Info, again *func() *h.Vio
 			if !fileHas[n] {
 				missing++
 			}
+		}
+		blank := 0
+		for n := range need {
+			if fileBlank[n] {
+				blank++
+				missing-- // listed, without a value: judged separately
+			}
+		}
+		if missing == 0 && blank > 0 {
+			info.Class("file-client-lists-a-needed-secret-without-a-value")
+			info.NonTrivial = true
+			if o.err != nil {
+				// counted as absent: then the failure is immediate, like for any absent secret
+				if c.Ctx != "cancelled" && (o.at != 0 || neverReturned) {
+					return h.V("fails-at-once-with-file-client", "file client lists %d needed secrets without a value: err=%v after %v (never returned=%v)", blank, o.err, o.at, neverReturned)
+				}
+				return nil
+			}
+			// counted as empty values: then every handle works and yields what the file says
+			for n := range declared {
+				want := "file-" + n
+				if inCache(n) {
+					want = "cache-" + n
+				} else if fileBlank[n] {
+					want = ""
+				}
+				var got string
+				if v := h.Safely(func() *h.Violation { got = string(o.st.Secret(n).Get()); return nil }); v != nil {
+					return h.V("value-for-every-declared-secret", "NewStore succeeded from a secrets file that lists %q with a version but no value, and reading a handle panicked: %s", n, v.Detail)
+				}
+				if got != want {
+					return h.V("value-for-every-declared-secret", "%q: handle yields %q, want %q", n, got, want)
+				}
+			}
+			return nil
 		}
 		if missing > 0 {
 			info.Class("file-client-missing-secret")
@@ -580,7 +638,7 @@ func runC10Bubble(dir string, c NewStoreCase, info *h.Info, again *func() *h.Vio
 
 var c10 = &h.Campaign[NewStoreCase]{
 	Prop: "C10", Sub: "newstore",
-	Rule: "rapid + testing/synctest (virtual time): declared names (1-6 from a pool of 4, duplicates frequent, optionally two more through a tagged struct), cache class (none / valid with any subset of names, fresh or stale versions / syntactically invalid document / well-formed document with a wrongly typed sibling entry next to entries for declared names / Read error), per-name service script (k transient failures then success, hang until the context ends, permanent error; failures are a plain error, access-denied, not-found, a request-level timeout that wraps context.DeadlineExceeded while the caller's context is alive, or a timeout-class network error), context (background, deadline, cancelled at T, already cancelled; instants off the back-off grid), client kind (scripted service or FileClient holding any subset), misconfigurations (nil client, no names, an empty name first / in the middle / last); non-trivial = construction that needed >= 2 rounds with a partially valid cache, or ended by context expiry, or a FileClient lacking a declared secret; distinct by scenario",
+	Rule: "rapid + testing/synctest (virtual time): declared names (1-6 from a pool of 4, duplicates frequent, optionally two more through a tagged struct), cache class (none / valid with any subset of names, fresh or stale versions / syntactically invalid document / well-formed document with a wrongly typed sibling entry next to entries for declared names / Read error), per-name service script (k transient failures then success, hang until the context ends, permanent error; failures are a plain error, access-denied, not-found, a request-level timeout that wraps context.DeadlineExceeded while the caller's context is alive, or a timeout-class network error), context (background, deadline, cancelled at T, already cancelled; instants off the back-off grid), client kind (scripted service or FileClient holding any subset), misconfigurations (nil client, no names, an empty name first / in the middle / last); a secrets file may list names with a version but without a value (then: absent, or an empty value - never a store whose first read panics); non-trivial = construction that needed >= 2 rounds with a partially valid cache, or ended by context expiry, or a FileClient lacking a declared secret; distinct by scenario",
 	Quick: 4000, Thorough: 2000000,
 	Gen:   genNewStoreCase,
 	Run:   runC10,
